@@ -9,7 +9,7 @@ tier = sys.argv[4] if len(sys.argv) > 4 else "quick"
 env = dict(os.environ, GOFLAGS="-mod=mod", GOPROXY="off")
 env.pop("GOTOOLCHAIN", None); env.pop("GOSUMDB", None)
 def sh(cmd, cwd=None, timeout=3000):
-    p = subprocess.run(cmd, shell=True, cwd=cwd, env=env, stdout=subprocess.PIPE, stderr=subprocess.STDOUT, text=True, timeout=timeout)
+    p = subprocess.run(cmd, shell=True, cwd=cwd, env=env, stdout=subprocess.PIPE, stderr=subprocess.STDOUT, text=True, errors="replace", timeout=timeout)
     return p.returncode, p.stdout
 KNOWN_FAIL = {"TestRoundtripSchemaSchema", "TestParse", "TestParseSchemaSchema"}
 wt = "/tmp/seedverify_" + sid
@@ -58,6 +58,8 @@ if res["confirmed"]:
     assert st == 0
     rc, o = sh(f"git -C /repo apply {os.path.join(dst, 'patch.diff')}")
     assert rc == 0, o
+    ev = f"/verif/evidence/{prop}.json"
+    evidence_keep = open(ev).read() if os.path.exists(ev) else None
     try:
         t0 = time.time()
         rcc, oc = sh(f"./vcheck {prop} {tier}", cwd="/verif", timeout=6000)
@@ -68,6 +70,8 @@ if res["confirmed"]:
         res["detected"] = rcc == 1 and bool(res["check_violation_lines"])
     finally:
         sh("git -C /repo checkout -- . && git -C /repo clean -fdq")
+        if evidence_keep is not None:
+            open(ev, "w").write(evidence_keep)  # the evidence file describes runs on the unchanged tree only
     meta.update({"breaks_property": prop, "confirmed_by": "tools/seedtest.py: demo passes without and fails with the patch in a scratch worktree; library suite passes with the patch (apart from the 3 always-failing fixture tests)",
                  "check_run": f"./vcheck {prop} {tier} with the patch applied to /repo", "check_result": {k: res[k] for k in ("check_exit", "check_violation_lines", "check_signatures", "detected", "check_wall_s")}})
     json.dump(meta, open(os.path.join(dst, "meta.json"), "w"), indent=1)
